@@ -693,11 +693,16 @@ class Screen(BaseScreen, RealTerminal):
                     raise ValueError(insertcs)
 
                 if isinstance(inserttext, bytes):
-                    inserttext = inserttext.decode(encoding)
+                    if insertcs != "U":
+                        inserttext = inserttext.translate(UNPRINTABLE_TRANS_TABLE)
+                    inserttext = inserttext.decode(encoding, "replace")
 
                 output.extend(("\x08" * back, ias))  # pylint: disable=used-before-assignment  # defined in `if row`
 
                 if encoding != "utf-8":
+                    if last_charset_flag == "U" and insertcs != "U":
+                        output.append(escape.IBMPC_OFF)
+                        last_charset_flag = None
                     if insertcs is None:
                         icss = escape.SI
                     elif insertcs == "U":
@@ -717,6 +722,10 @@ class Screen(BaseScreen, RealTerminal):
 
             if whitespace_at_end:
                 output.append(escape.ERASE_IN_LINE_RIGHT)
+
+        if last_charset_flag == "U":
+            # the next draw starts from the normal font: SGR 0 does not switch the IBM PC mapping off everywhere
+            output.append(escape.IBMPC_OFF)
 
         if canvas.cursor is not None:
             x, y = canvas.cursor
